@@ -80,13 +80,15 @@ type joinEnv struct {
 	cancel context.CancelFunc
 	plog   *plog
 
-	mkJoin     func() (kcache.Controller, error)
+	mkJoin     func(ctx context.Context) (kcache.Controller, error)
+	jcancel    context.CancelFunc  // the join's own context (it only carries the logger)
 	bases      []kcache.Controller // adapters over the long-lived typed base controllers
 	closeBases func()
 
-	jc     kcache.Controller
-	j      *node
-	probeN int
+	jc           kcache.Controller
+	ctxCancelled bool
+	j            *node
+	probeN       int
 }
 
 func (e *joinEnv) h(format string, args ...interface{}) {
@@ -128,7 +130,7 @@ func newJoinEnv(t *rapid.T, spec joinSpec, perturb bool, seed uint64, gateSrc, g
 		must(err)
 		d := pods()
 		e.bases = []kcache.Controller{serviceCtl{s}, podCtl{d}}
-		e.mkJoin = func() (kcache.Controller, error) {
+		e.mkJoin = func(ctx context.Context) (kcache.Controller, error) {
 			j, err := join.ServicePods(ctx, s, d)
 			if err != nil {
 				return nil, err
@@ -140,7 +142,7 @@ func newJoinEnv(t *rapid.T, spec joinSpec, perturb bool, seed uint64, gateSrc, g
 		must(err)
 		d := pods()
 		e.bases = []kcache.Controller{replicationcontrollerCtl{s}, podCtl{d}}
-		e.mkJoin = func() (kcache.Controller, error) {
+		e.mkJoin = func(ctx context.Context) (kcache.Controller, error) {
 			j, err := join.RCPods(ctx, s, d)
 			if err != nil {
 				return nil, err
@@ -152,7 +154,7 @@ func newJoinEnv(t *rapid.T, spec joinSpec, perturb bool, seed uint64, gateSrc, g
 		must(err)
 		d := pods()
 		e.bases = []kcache.Controller{replicasetCtl{s}, podCtl{d}}
-		e.mkJoin = func() (kcache.Controller, error) {
+		e.mkJoin = func(ctx context.Context) (kcache.Controller, error) {
 			j, err := join.RSPods(ctx, s, d)
 			if err != nil {
 				return nil, err
@@ -164,7 +166,7 @@ func newJoinEnv(t *rapid.T, spec joinSpec, perturb bool, seed uint64, gateSrc, g
 		must(err)
 		d := pods()
 		e.bases = []kcache.Controller{deploymentCtl{s}, podCtl{d}}
-		e.mkJoin = func() (kcache.Controller, error) {
+		e.mkJoin = func(ctx context.Context) (kcache.Controller, error) {
 			j, err := join.DeploymentPods(ctx, s, d)
 			if err != nil {
 				return nil, err
@@ -176,7 +178,7 @@ func newJoinEnv(t *rapid.T, spec joinSpec, perturb bool, seed uint64, gateSrc, g
 		must(err)
 		d := pods()
 		e.bases = []kcache.Controller{daemonsetCtl{s}, podCtl{d}}
-		e.mkJoin = func() (kcache.Controller, error) {
+		e.mkJoin = func(ctx context.Context) (kcache.Controller, error) {
 			j, err := join.DaemonSetPods(ctx, s, d)
 			if err != nil {
 				return nil, err
@@ -188,7 +190,7 @@ func newJoinEnv(t *rapid.T, spec joinSpec, perturb bool, seed uint64, gateSrc, g
 		must(err)
 		d := pods()
 		e.bases = []kcache.Controller{statefulsetCtl{s}, podCtl{d}}
-		e.mkJoin = func() (kcache.Controller, error) {
+		e.mkJoin = func(ctx context.Context) (kcache.Controller, error) {
 			j, err := join.StatefulSetPods(ctx, s, d)
 			if err != nil {
 				return nil, err
@@ -200,7 +202,7 @@ func newJoinEnv(t *rapid.T, spec joinSpec, perturb bool, seed uint64, gateSrc, g
 		must(err)
 		d := pods()
 		e.bases = []kcache.Controller{jobCtl{s}, podCtl{d}}
-		e.mkJoin = func() (kcache.Controller, error) {
+		e.mkJoin = func(ctx context.Context) (kcache.Controller, error) {
 			j, err := join.JobPods(ctx, s, d)
 			if err != nil {
 				return nil, err
@@ -213,7 +215,7 @@ func newJoinEnv(t *rapid.T, spec joinSpec, perturb bool, seed uint64, gateSrc, g
 		d, err := tservice.BuildController(ctx, log, e.dst)
 		must(err)
 		e.bases = []kcache.Controller{ingressCtl{s}, serviceCtl{d}}
-		e.mkJoin = func() (kcache.Controller, error) {
+		e.mkJoin = func(ctx context.Context) (kcache.Controller, error) {
 			j, err := join.IngressServices(ctx, s, d)
 			if err != nil {
 				return nil, err
@@ -228,7 +230,7 @@ func newJoinEnv(t *rapid.T, spec joinSpec, perturb bool, seed uint64, gateSrc, g
 		must(err)
 		d := pods()
 		e.bases = []kcache.Controller{ingressCtl{s}, podCtl{d}, serviceCtl{m}}
-		e.mkJoin = func() (kcache.Controller, error) {
+		e.mkJoin = func(ctx context.Context) (kcache.Controller, error) {
 			j, err := join.IngressPods(ctx, s, m, d)
 			if err != nil {
 				return nil, err
@@ -392,7 +394,11 @@ func (e *joinEnv) expected() []string {
 // ---------------------------------------------------------------- join lifecycle
 
 func (e *joinEnv) createJoin() {
-	jc, err := e.mkJoin()
+	// every join gets a context of its own: by contract it only carries the logger, so cancelling it
+	// must neither stop the join nor disable anything the join needs in order to stop later
+	jctx, jcancel := context.WithCancel(logutil.NewContext(context.Background(), e.plog))
+	e.jcancel = jcancel
+	jc, err := e.mkJoin(jctx)
 	if err != nil {
 		e.fail("creating the join over live bases failed: %v", err)
 	}
@@ -502,6 +508,11 @@ func (e *joinEnv) renderSources() string {
 // closeJoin closes the join result and checks that everything it created stops
 // and that the bases keep running.
 func (e *joinEnv) closeJoin(baseline int) {
+	if e.jcancel != nil && rapid.Bool().Draw(e.t, "cancelJoinContextFirst") {
+		e.jcancel()
+		e.h("the join's own context cancelled")
+		e.ctxCancelled = true
+	}
 	e.h("join closed")
 	if !closeBounded(e.jc) {
 		e.fail("WEDGE: Close() of the join result did not return")
@@ -916,7 +927,7 @@ func runJoinCase(t *rapid.T, spec joinSpec) {
 	hist := append([]string(nil), e.hist...)
 	statCase("C09", hashString(spec.name+strings.Join(hist, ";")), (selectorChange || (srcAdded && srcRemoved)) && cycle, func() interface{} {
 		return map[string]interface{}{"join": spec.name, "history": hist}
-	}, "join_"+spec.name, fmt.Sprintf("create_close_cycle=%v", cycle), fmt.Sprintf("gated_first_lists=%d", len(releases)), fmt.Sprintf("empty_source_at_start=%v", emptyStart), fmt.Sprintf("join_closed_before_ready=%v", earlyClosed))
+	}, "join_"+spec.name, fmt.Sprintf("create_close_cycle=%v", cycle), fmt.Sprintf("gated_first_lists=%d", len(releases)), fmt.Sprintf("empty_source_at_start=%v", emptyStart), fmt.Sprintf("join_closed_before_ready=%v", earlyClosed), fmt.Sprintf("join_context_cancelled_before_close=%v", e.ctxCancelled))
 }
 
 func diffStrings(before, after []string) (added, removed int) {
